@@ -24,6 +24,16 @@ PROPERTIES = {
                     "for the real function traced through the real get_xc with symbolic densities, proved as an identity in a tower of "
                     "algebraic/transcendental generators",
     ),
+    "C08": dict(
+        modules=["contracts.c08"],
+        level="proof",
+        trusted_base=BASE_TRUST + ["in-house exact-algebra normaliser (engine A)", "mpmath (refutation witnesses, constant signs)"],
+        assumptions=["IEEE rounding is out of scope: 'same energies' is read as exact equality of the two code paths over the reals",
+                     "identities hold where radicands/denominators are non-zero: n > 0, |zeta| < 1",
+                     "generic gradient (|grad n| != 0)"],
+        explanation="zeta=0 reduction, spin-swap symmetry and exchange spin scaling of every built-in functional, proved as exact identities "
+                    "between two traced runs of the real get_xc in one generator universe",
+    ),
 }
 
 
